@@ -70,7 +70,12 @@ def run(tier, seed, work, replay):
     for fam in FAMILIES:
         E.tlc_mc(work, "KMSession", "MC_KMSession_%s.cfg" % fam, cov, timeout=900)
     if tier == "thorough":
-        E.tlc_mc(work, "KMSession", "MC_KMSession_all2.cfg", cov, timeout=3000)
+        # cross-family interactions: every pair of mechanisms together (2 browser sessions, 2 push cookies).  All six at
+        # once (MC_KMSession_all2.cfg) exceeds 13 M distinct states after 8 minutes on 12 workers with the queue still
+        # growing, so it is kept as a configuration for manual runs and is not part of the registered tier.
+        import itertools
+        for a, b in itertools.combinations(FAMILIES, 2):
+            E.tlc_mc(work, "KMSession", "MC_KMSession_pair_%s_%s.cfg" % (a, b), cov, timeout=1800)
     # negative controls: the as-built flags must make TLC find the attack (the properties are not vacuous)
     attacks = []
     for flag, mechs in NEGS.items():
